@@ -91,6 +91,10 @@ Definition whole_guard (img v : str) : bool :=
 (* a NUL character anywhere makes CPython reject the whole source file *)
 Definition no_nul (s : str) : bool := negb (existsb (N.eqb 0) s).
 
+(* Jinja's indent filter re-joins str.splitlines(): inside a macro rendered through it these characters become a real newline *)
+Definition line_sep (c : N) : bool := memN c [11; 12; 28; 29; 30; 133; 8232; 8233].
+Definition no_linesep (s : str) : bool := negb (existsb line_sep s).
+
 Definition is_brace (c : N) : bool := (c =? 123) || (c =? 125).
 Definition no_brace (s : str) : bool := forallb (fun c => negb (is_brace c)) s.
 
@@ -122,13 +126,13 @@ Definition slot_guard (s : site) (p : str) : bool :=
     end
   else
     match s_ctx s with
-    | CDQ => lit_guard DQ img (site_value sa p)
+    | CDQ => lit_guard DQ img (site_value sa p) && no_linesep img
     | CSQ => match sa with
              | SRepr | SReprEsc => whole_guard img (site_value sa p)
-             | _ => lit_guard SQ img (site_value sa p)
+             | _ => lit_guard SQ img (site_value sa p) && no_linesep img
              end
-    | CFstrDQ => lit_inert DQ img && no_brace img
-    | CTomlBasic => lit_guard DQ img (site_value sa p) && toml_clean img
+    | CFstrDQ => lit_inert DQ img && no_brace img && no_linesep img
+    | CTomlBasic => lit_guard DQ img (site_value sa p) && toml_clean img && no_linesep img
     | CDoc => negb (has_triple img) && no_nul img
     | CMarkdown => true
     | _ => false
@@ -202,6 +206,7 @@ Definition site_safe (s : site) : bool :=
 (* the finding a payload p outside slot_guard (resp. slot_verbatim) of this site belongs to; empty = none *)
 Definition site_finding (s : site) (p : str) : string :=
   if negb (no_nul p) && negb (ident_san (s_san s)) then "nul_char"%string else
+  if negb (no_linesep p) && negb (ident_san (s_san s)) && negb (match s_ctx s with CDoc => true | _ => false end) then "linesep_newline"%string else
   match site_class (s_ctx s) (s_san s) with
   | KNarrow => match narrow_entry s with Some id => id | None => EmptyString end
   | KOk =>
